@@ -348,4 +348,13 @@ theorem gen_window_flags :
     [Gen.Win.flagHidden, Gen.Win.flagLowest, Gen.Win.flagRootParent, Gen.Win.flagStealInput] = [1, 2, 4, 8] := by
   decide
 
+/-- The numbers the handler programs pass for line style and caps, and the position of each direction in a line mask, are
+    the library's (`TICKIT_LINE_*`, `TICKIT_LINECAP_*`, the `*_SHIFT` enumerators of renderbuffer.c): `WinRB.lineCalls`
+    tests `caps &&& 1` / `caps &&& 2`, `hlineAt` / `vlineAt` shift the style by them. -/
+theorem gen_line_constants :
+    [Gen.Win.linecapStart, Gen.Win.linecapEnd, Gen.LineChars.lineSingle, Gen.LineChars.lineDouble, Gen.LineChars.lineThick,
+     Gen.LineChars.shiftNorth, Gen.LineChars.shiftEast, Gen.LineChars.shiftSouth, Gen.LineChars.shiftWest] =
+    [1, 2, 1, 2, 3, 0, 2, 4, 6] ∧ Gen.LineChars.linemaskToChar.size = 256 := by
+  decide +kernel
+
 end Tickit.Props.C02
